@@ -349,6 +349,21 @@ fn main() {
                 Ok(v) => v,
                 Err(e) => json!({"panic": panic_msg(e)}),
             },
+            "redirparse" => match catch_unwind(AssertUnwindSafe(|| {
+                let mut tokens: x::types::Tokens = Vec::new();
+                if let Some(a) = case.get("tokens").and_then(|v| v.as_array()) {
+                    for t in a {
+                        tokens.push((t[0].as_str().unwrap_or("").to_string(), t[1].as_str().unwrap_or("").to_string()));
+                    }
+                }
+                match x::parser_line::tokens_to_redirections(&tokens) {
+                    Ok((tk, rd)) => json!({"ok": true, "out": toks(&tk), "redirs": rd.iter().map(|r| json!([r.0, r.1, r.2])).collect::<Vec<_>>()}),
+                    Err(e) => json!({"ok": false, "err": e}),
+                }
+            })) {
+                Ok(v) => v,
+                Err(e) => json!({"panic": panic_msg(e)}),
+            },
             "tokens" => match catch_unwind(AssertUnwindSafe(|| {
                 let li = x::parser_line::parse_line(&line);
                 json!({"tokens": toks(&li.tokens), "complete": li.is_complete, "arith": x::tools::is_arithmetic(&line)})
